@@ -75,8 +75,109 @@ class Normalizer:
             ctx.root = d
             ctx.loop_view = loop_view
             ctx.keep = keep          # qualified names of functions that are read on their own (never unfolded / hoisted here)
-            self._cache[key] = ctx.block(list(d.body))
+            d2 = tally_lists_as_counters(d)
+            if d2 is not d:
+                ctx.root = d2
+            self._cache[key] = ctx.block(list(d2.body))
         return self._cache[key]
+
+
+def tally_lists_as_counters(d: ast.AST) -> ast.AST:
+    """N17: a local list that starts empty, is only ever ``append``-ed to (statement level) and only ever read through ``len(xs)`` / ``sum(xs)`` is a
+    pair of counters: ``len(xs)`` counts the appends, ``sum(xs)`` adds the appended values (``sum`` of booleans counts the true ones).  Returns a
+    rewritten copy of the function (or ``d`` itself when nothing applies)."""
+    if not isinstance(d, (ast.FunctionDef, ast.AsyncFunctionDef)):
+        return d
+    cands = {}
+    for n in ast.walk(d):
+        tg, val = None, None
+        if isinstance(n, ast.Assign) and len(n.targets) == 1 and isinstance(n.targets[0], ast.Name):
+            tg, val = n.targets[0].id, n.value
+        elif isinstance(n, ast.AnnAssign) and isinstance(n.target, ast.Name) and n.value is not None:
+            tg, val = n.target.id, n.value
+        if tg is not None:
+            empty = (isinstance(val, ast.List) and not val.elts) or (isinstance(val, ast.Call) and isinstance(val.func, ast.Name) and val.func.id == "list" and not val.args and not val.keywords)
+            cands.setdefault(tg, []).append((n, empty))
+    names = [k for k, v in cands.items() if len(v) == 1 and v[0][1]]
+    if not names:
+        return d
+    parents = {}
+    for n in ast.walk(d):
+        for c in ast.iter_child_nodes(n):
+            parents[id(c)] = n
+    ok_names = []
+    for nm in names:
+        uses = [n for n in ast.walk(d) if isinstance(n, ast.Name) and n.id == nm and isinstance(n.ctx, ast.Load)]
+        if not uses:
+            continue
+        good = True
+        reads = 0
+        for u in uses:
+            par = parents.get(id(u))
+            if isinstance(par, ast.Attribute) and par.attr == "append" and par.value is u:
+                call = parents.get(id(par))
+                stmt = parents.get(id(call))
+                if not (isinstance(call, ast.Call) and call.func is par and len(call.args) == 1 and not call.keywords and isinstance(stmt, ast.Expr)):
+                    good = False
+            elif isinstance(par, ast.Call) and isinstance(par.func, ast.Name) and par.func.id in ("len", "sum") and par.args == [u] and not par.keywords:
+                reads += 1
+            else:
+                good = False
+        if good and reads:
+            ok_names.append(nm)
+    if not ok_names:
+        return d
+    d2 = copy.deepcopy(d)
+
+    class _Rw(ast.NodeTransformer):
+        def visit_Call(self, node):
+            self.generic_visit(node)
+            if isinstance(node.func, ast.Name) and node.func.id in ("len", "sum") and len(node.args) == 1 and isinstance(node.args[0], ast.Name) and node.args[0].id in ok_names:
+                return ast.copy_location(ast.Name(id=f"__qcl_{node.func.id}_{node.args[0].id}", ctx=ast.Load()), node)
+            return node
+
+        def visit_Expr(self, node):
+            v = node.value
+            if isinstance(v, ast.Call) and isinstance(v.func, ast.Attribute) and v.func.attr == "append" and isinstance(v.func.value, ast.Name) and v.func.value.id in ok_names:
+                nm = v.func.value.id
+                arg = self.visit(v.args[0])
+                inc_len = ast.AugAssign(target=ast.Name(id=f"__qcl_len_{nm}", ctx=ast.Store()), op=ast.Add(), value=ast.Constant(value=1))
+                cond = None
+                if isinstance(arg, ast.IfExp) and isinstance(arg.body, ast.Constant) and isinstance(arg.orelse, ast.Constant) and arg.body.value is True and arg.orelse.value is False:
+                    cond = arg.test
+                elif isinstance(arg, (ast.Compare, ast.BoolOp)) or (isinstance(arg, ast.UnaryOp) and isinstance(arg.op, ast.Not)):
+                    cond = arg
+                if cond is not None:
+                    inc_sum = ast.If(test=cond, body=[ast.AugAssign(target=ast.Name(id=f"__qcl_sum_{nm}", ctx=ast.Store()), op=ast.Add(), value=ast.Constant(value=1))], orelse=[])
+                else:
+                    inc_sum = ast.AugAssign(target=ast.Name(id=f"__qcl_sum_{nm}", ctx=ast.Store()), op=ast.Add(), value=arg)
+                out = [inc_sum, inc_len]
+                for o in out:
+                    ast.copy_location(o, node)
+                    ast.fix_missing_locations(o)
+                return out
+            return self.generic_visit(node)
+
+        def _init(self, node, nm):
+            out = [ast.Assign(targets=[ast.Name(id=f"__qcl_len_{nm}", ctx=ast.Store())], value=ast.Constant(value=0)),
+                   ast.Assign(targets=[ast.Name(id=f"__qcl_sum_{nm}", ctx=ast.Store())], value=ast.Constant(value=0))]
+            for o in out:
+                ast.copy_location(o, node)
+                ast.fix_missing_locations(o)
+            return out
+
+        def visit_Assign(self, node):
+            if len(node.targets) == 1 and isinstance(node.targets[0], ast.Name) and node.targets[0].id in ok_names:
+                return self._init(node, node.targets[0].id)
+            return self.generic_visit(node)
+
+        def visit_AnnAssign(self, node):
+            if isinstance(node.target, ast.Name) and node.target.id in ok_names and node.value is not None:
+                return self._init(node, node.target.id)
+            return self.generic_visit(node)
+    d2 = _Rw().visit(d2)
+    ast.fix_missing_locations(d2)
+    return d2
 
 
 def completion_flag_form(st: ast.For) -> List[ast.stmt]:
@@ -869,6 +970,25 @@ class _Ctx:
         return res
 
     # -- N6 -------------------------------------------------------------------------------------------
+    def _as_genexp(self, node: ast.expr) -> Optional[ast.GeneratorExp]:
+        """a generator expression, or the one ``filter(p, D)`` / ``map(f, D)`` abbreviates"""
+        if isinstance(node, ast.GeneratorExp):
+            return node
+        if isinstance(node, ast.Call) and isinstance(node.func, ast.Name) and node.func.id in ("filter", "map") and len(node.args) == 2 and not node.keywords \
+                and not any(isinstance(a, ast.Starred) for a in node.args):
+            x = self.tmp()
+            f, d = node.args
+            call = ast.Call(func=copy.deepcopy(f), args=[ast.Name(id=x, ctx=ast.Load())], keywords=[])
+            if node.func.id == "filter":
+                test = ast.Name(id=x, ctx=ast.Load()) if isinstance(f, ast.Constant) and f.value is None else call
+                g = ast.GeneratorExp(elt=ast.Name(id=x, ctx=ast.Load()), generators=[ast.comprehension(target=ast.Name(id=x, ctx=ast.Store()), iter=copy.deepcopy(d), ifs=[test], is_async=0)])
+            else:
+                g = ast.GeneratorExp(elt=call, generators=[ast.comprehension(target=ast.Name(id=x, ctx=ast.Store()), iter=copy.deepcopy(d), ifs=[], is_async=0)])
+            ast.copy_location(g, node)
+            ast.fix_missing_locations(g)
+            return g
+        return None
+
     def _enumerate_loop(self, st: ast.For) -> Optional[List[ast.stmt]]:
         """``for i, x in enumerate(G): body`` over a *filtered/mapped generator* G  ->  ``cnt = 0; for x in G: i = cnt; cnt += 1; body``
         (the position in a filtered stream is a counter of the elements that pass the filter)"""
@@ -882,8 +1002,14 @@ class _Ctx:
         if isinstance(src, ast.Name) and self.root is not None:
             binds = [n for n in ast.walk(self.root) if isinstance(n, (ast.Assign, ast.AnnAssign)) and
                      any(isinstance(t, ast.Name) and t.id == src.id for t in (n.targets if isinstance(n, ast.Assign) else [n.target]))]
+            loads = [n for n in ast.walk(self.root) if isinstance(n, ast.Name) and n.id == src.id and isinstance(n.ctx, ast.Load)]
             if len(binds) == 1:
                 gen = binds[0].value
+                if not isinstance(gen, ast.GeneratorExp) and len(loads) == 1 and self._as_genexp(gen) is not None:
+                    src = self._as_genexp(gen)      # a lazily filtered / mapped stream bound to a name that is consumed only here
+                    gen = src
+        elif self._as_genexp(src) is not None and not isinstance(src, ast.GeneratorExp):
+            src = gen = self._as_genexp(src)
         if not isinstance(gen, ast.GeneratorExp):
             return None   # plain enumerate over a sequence is read as it is
         cnt = self.tmp()
